@@ -25,7 +25,7 @@ def run(ctx):
             dict(sep="recipe", sepChar=[], sepRecipe=dict(len=3, allow=8, require=0, exclude=0, allowChars=wlfam.o("é"), requireSets=[], excludeChars=[])),
             dict(sep="recipe", sepChar=[], sepRecipe=dict(len=4, allow=12, require=4, exclude=16, allowChars=[], requireSets=[], excludeChars=[]))]
     scen = []
-    for ws in lists(rng, 36 if quick else 300):
+    for ws in lists(rng, 36 if quick else 900):
         for _ in range(2 if quick else 4):
             wl = dict(words=[wlfam.o(w) for w in ws], nolist=0, len=rng.choice([1, 2, 3, 4, 7, 12]), cap=rng.choice(wlfam.SCHEMES + ["random", "one"]))
             wl.update(rng.choice(seps))
